@@ -42,3 +42,79 @@
         assert!(h.is_closed_and_empty(), "work queue left open by drop: idle workers sleep forever");
         assert!(h.steal().is_none());
     }
+
+    // ---------------------------------------------------------------- C18.mt / C13.unit: work units cut by byte count only
+    pub(crate) static mut SENT_N: usize = 0;
+    pub(crate) static mut SENT_LENS: [usize; 6] = [0; 6];
+    pub(crate) static mut SENT_SUM: u32 = 0;       // ghost: running sum of the bytes of all units, in dispatch order
+    /// send_work_unit by contract (own body: queue push + spawn rule, C10.bound): the current unit is handed over with
+    /// the next sequence number and a fresh unit is started. Ghost log: length and byte sum of every unit.
+    pub(crate) fn send_unit_stub<W: Write>(s: &mut LZIPWriterMT<W>) -> io::Result<()> {
+        if s.current_work_unit.is_empty() { return Ok(()); }
+        unsafe {
+            assert!(SENT_N < 6);
+            SENT_LENS[SENT_N] = s.current_work_unit.len();
+            SENT_N += 1;
+            let mut i = 0;
+            while i < s.current_work_unit.len() { SENT_SUM = SENT_SUM.wrapping_mul(31).wrapping_add(s.current_work_unit[i] as u32); i += 1; }
+        }
+        s.current_work_unit.clear();
+        s.next_sequence_to_dispatch += 1;
+        Ok(())
+    }
+    /// get_next_compressed_chunk by contract for the cutting harness: no result is ready yet
+    pub(crate) fn no_result_stub<W: Write>(_s: &mut LZIPWriterMT<W>, _blocking: bool) -> io::Result<Option<Vec<u8>>> { Ok(None) }
+
+    /// One write of 20 bytes into a writer that already holds K pending bytes, unit size 8: every unit handed to the
+    /// workers has exactly 8 bytes, the units are the input bytes in order (pending first), fewer than 8 bytes stay
+    /// pending, everything is reported as consumed - whatever K is. (Unit boundaries depend on byte counts only.)
+    fn mt_write_cut<const K: usize>() {
+        unsafe { SENT_N = 0; SENT_SUM = 0; SPAWNED = 0; }
+        let o = LZIPOptions { lzma_options: crate::LZMAOptions { dict_size: 4096, lc: 3, lp: 0, pb: 2, mode: crate::EncodeMode::Fast, nice_len: 32, mf: crate::MFType::HC4,
+            depth_limit: 0, preset_dict: None }, member_size: core::num::NonZeroU64::new(4096) };
+        let mut w = match LZIPWriterMT::new(vk::Sink::<16>::new(), o, 2) { Ok(w) => core::mem::ManuallyDrop::new(w), Err(_) => { assert!(false); return; } };
+        w.member_size = 8;
+        let pend: [u8; 8] = vk::any();
+        let buf: [u8; 20] = vk::any();
+        let mut want: u32 = 0;
+        let mut i = 0;
+        while i < K { w.current_work_unit.push(pend[i]); want = want.wrapping_mul(31).wrapping_add(pend[i] as u32); i += 1; }
+        let full = (K + 20) / 8;
+        let rest = (K + 20) % 8;
+        i = 0;
+        while i < 20 - rest { want = want.wrapping_mul(31).wrapping_add(buf[i] as u32); i += 1; }
+        let r = w.write(&buf);
+        assert!(matches!(r, Ok(20)), "write must consume the whole buffer");
+        assert!(unsafe { SENT_N } == full, "number of dispatched units");
+        i = 0;
+        while i < 6 { if i < full { assert!(unsafe { SENT_LENS[i] } == 8, "a dispatched unit is not exactly the unit size"); } i += 1; }
+        assert!(w.current_work_unit.len() == rest);
+        assert!(unsafe { SENT_SUM } == want, "units are not the input bytes in order");
+        i = 0;
+        while i < 8 { if i < rest { assert!(w.current_work_unit[i] == buf[20 - rest + i]); } i += 1; }
+        assert!(w.next_sequence_to_dispatch == full as u64);
+    }
+    #[kani::proof]
+    #[kani::unwind(22)]
+    #[kani::stub(LZIPWriterMT::spawn_worker_thread, spawn_stub)]
+    #[kani::stub(LZIPWriterMT::send_work_unit, send_unit_stub)]
+    #[kani::stub(LZIPWriterMT::get_next_compressed_chunk, no_result_stub)]
+    #[kani::stub(alloc::sync::Arc::drop_slow, vk::arc_leak_stub)]
+    //@ERR
+    fn c18_mt_write_cut_lzip_k0() { mt_write_cut::<0>(); }
+    #[kani::proof]
+    #[kani::unwind(22)]
+    #[kani::stub(LZIPWriterMT::spawn_worker_thread, spawn_stub)]
+    #[kani::stub(LZIPWriterMT::send_work_unit, send_unit_stub)]
+    #[kani::stub(LZIPWriterMT::get_next_compressed_chunk, no_result_stub)]
+    #[kani::stub(alloc::sync::Arc::drop_slow, vk::arc_leak_stub)]
+    //@ERR
+    fn c18_mt_write_cut_lzip_k3() { mt_write_cut::<3>(); }
+    #[kani::proof]
+    #[kani::unwind(22)]
+    #[kani::stub(LZIPWriterMT::spawn_worker_thread, spawn_stub)]
+    #[kani::stub(LZIPWriterMT::send_work_unit, send_unit_stub)]
+    #[kani::stub(LZIPWriterMT::get_next_compressed_chunk, no_result_stub)]
+    #[kani::stub(alloc::sync::Arc::drop_slow, vk::arc_leak_stub)]
+    //@ERR
+    fn c18_mt_write_cut_lzip_k7() { mt_write_cut::<7>(); }
